@@ -242,38 +242,45 @@ def ending_class(out):
     return 'other'
 
 
-def compare(ctx, cases, results, what):
-    """judge every case; report the first (shrunk) disagreement of each kind. Returns (#spec, #model mismatches)."""
+def compare(ctx, cases, results, what, decode='min'):
+    """judge every case; report the first (shrunk) disagreement of each kind. Returns (#spec, #model mismatches).
+    mode stop / cancel: the Spec is the judge (cancel = every waiting next_frame call is abandoned and re-entered:
+    by C05/C06_cancel_safe the Spec and the model say the same as for stop). decode = the protocol-decoding
+    level the implementation ran at; it is part of the replay."""
     n_spec = n_model = n_buf = 0
+    tag = '' if decode == 'min' else '.decode-' + decode
+    what = what if decode == 'min' else what + f' (decode level {decode})'
     for c, (impl, model, spec, st) in zip(cases, results):
         kind, mode = c[0], c[1]
-        if mode == 'stop' and impl != spec:
+        if mode in ('stop', 'cancel') and impl != spec:
             n_spec += 1
             if n_spec == 1:
                 def fails(cs):
-                    return [(i != s) for (i, m, s, _) in evaluate(ctx, cs)]
+                    return [(i != s) for (i, m, s, _) in evaluate(ctx, cs, decode)]
                 small = vlib.shrink_batch(c, fails, shrink_candidates)
-                (i2, m2, s2, _), = evaluate(ctx, [small])
-                ctx.violation(f'{kind}.frames-differ-from-spec.{ending_class(s2)}',
-                              f'{what}: the reader delivers other frames / another error than the stream prescribes: impl={i2[:200]} spec={s2[:200]}',
+                (i2, m2, s2, _), = evaluate(ctx, [small], decode)
+                mtag = '.cancel' if small[1] == 'cancel' else ''
+                ctx.violation(f'{kind}{mtag}{tag}.frames-differ-from-spec.{ending_class(s2)}',
+                              f'{what}: the reader delivers other frames / another error than the stream prescribes'
+                              + (' when waiting next_frame calls are abandoned and re-entered between chunks' if mtag else '') + f': impl={i2[:200]} spec={s2[:200]}',
                               {'cases': [case_to_json(small)], 'impl': i2, 'spec': s2, 'model': m2, 'original_case': case_to_json(c),
-                               'harness_line': to_line(small)})
+                               'harness_line': to_line(small) + ('' if decode == 'min' else f'   (--decode {decode})'), 'decode': decode})
         elif impl != model:
             n_model += 1
             if n_model == 1:
                 def failsm(cs):
-                    return [(i != m) for (i, m, s, _) in evaluate(ctx, cs)]
+                    return [(i != m) for (i, m, s, _) in evaluate(ctx, cs, decode)]
                 small = vlib.shrink_batch(c, failsm, shrink_candidates)
-                (i2, m2, s2, _), = evaluate(ctx, [small])
-                ctx.violation(f'{kind}.{mode}.model-differs-from-impl',
+                (i2, m2, s2, _), = evaluate(ctx, [small], decode)
+                ctx.violation(f'{kind}.{mode}{tag}.model-differs-from-impl',
                               f'{what}: implementation and model disagree: impl={i2[:200]} model={m2[:200]}',
                               {'cases': [case_to_json(small)], 'impl': i2, 'model': m2, 'spec': s2, 'original_case': case_to_json(c),
-                               'harness_line': to_line(small)}, no_failing_input=(mode == 'stop'))
+                               'harness_line': to_line(small), 'decode': decode}, no_failing_input=(mode != 'resume'))
         elif st.get('offered', '') != st.get('model_offered', '') and 'PANIC' not in impl:
             # same frames, but the ReadBuffer offered other amounts of space than the model's begin/end indices imply
             n_buf += 1
             if n_buf == 1:
-                ctx.violation(f'{kind}.buffer-indices-differ-from-model',
+                ctx.violation(f'{kind}{tag}.buffer-indices-differ-from-model',
                               f'{what}: same frames, but the space offered per read differs: impl={st.get("offered", "")[:120]} model={st.get("model_offered", "")[:120]}',
                               {'cases': [case_to_json(c)], 'impl': impl, 'model': model, 'spec': spec, 'impl_offered': st.get('offered'),
                                'model_offered': st.get('model_offered'), 'harness_line': to_line(c)}, no_failing_input=True)
